@@ -4,9 +4,9 @@
   (re-translated from line.hpp / circle.hpp / ellipse.hpp on every run).
 
   line:    C20_line_point_count, C20_line_count, C20_line_endpoints, C20_line_major_monotone,
-           C20_line_connected_inner, C20_line_partial        -- for EVERY decision stream
-           C20_line_bbox_witness, C20_line_near_witness      -- the bbox / one-pixel clauses are FALSE today
-           C20_line_exact_connected, C20_line_exact_bbox_iff -- the error term in EXACT arithmetic (the double code
+           C20_line_connected_inner, C20_line_bbox, C20_line_partial   -- for EVERY decision stream (model follows fix 51ba32c)
+           C20_line_near_witness                             -- the one-pixel clause is FALSE today
+           C20_line_guard_example, C20_line_exact_connected  -- the error term in EXACT arithmetic (the double code
                                                                 agrees with it except on ties; checked op `linex`)
   circle:  C20_circle_count, C20_circle_sym                  -- any octant list (midpoint and trigonometric)
            C20_midpoint_count, C20_circle_on_curve, C20_circle_bbox, C20_circle_within_one_pixel,
@@ -15,8 +15,8 @@
            C20_ellipse_bbox, C20_ellipse_terminates, C20_ellipse_connected, C20_ellipse_ends, C20_ellipse_closed,
            C20_ellipse_clipped, C20_ellipse_apply_in_view, C20_ellipse_sym
   OPEN (not proven; decided by the Spec on the real code's output only): closeness of the ellipse trajectory and of
-  the trigonometric circle to the ideal curve; bbox of the trigonometric circle; the minor-axis trajectory of the
-  line produced by the double error term (false today: witnesses).
+  the trigonometric circle to the ideal curve; bbox of the trigonometric circle; the one-pixel clause of the
+  line (false today: witness) and the last step's connectivity for the double error term.
 -/
 import GilVerif.Model.C20
 import Mathlib.Tactic.Ring
@@ -36,20 +36,33 @@ variable {σ : Type}
 
 private theorem maj_emit (f : Bool) (x y : Int) : maj f (emit f x y) = x := by cases f <;> rfl
 private theorem mnr_emit (f : Bool) (x y : Int) : mnr f (emit f x y) = y := by cases f <;> rfl
+private theorem emit_maj_mnr (f : Bool) (p : Pt) : emit f (maj f p) (mnr f p) = p := by cases f <;> rfl
 
-private theorem lineLoop_length (step : σ → Bool × σ) (f : Bool) (xi yi : Int) (n : Nat) (s : σ) (x y : Int) :
-    (lineLoop step f xi yi n s x y).length = n := by
-  induction n generalizing s x y with
-  | zero => rfl
-  | succ n ih => simp [lineLoop, ih]
+/-- one unfolding of the loop: the next state and ordinate, whatever the decision -/
+private theorem lineLoop_succ (E : Err σ) (f : Bool) (xi yi ey : Int) (n : Nat) (s : σ) (x y : Int) :
+    ∃ (s' : σ) (y' : Int), lineLoop E f xi yi ey (n + 1) s x y = emit f x y :: lineLoop E f xi yi ey n s' (x + xi) y' ∧
+      ((y' = y + yi ∧ y ≠ ey) ∨ y' = y) := by
+  by_cases h : (E.dec (E.adv s) && decide (y ≠ ey)) = true
+  · refine ⟨E.sub (E.adv s), y + yi, by simp only [lineLoop, h, if_true], Or.inl ⟨rfl, ?_⟩⟩
+    simp only [Bool.and_eq_true, decide_eq_true_eq] at h; exact h.2
+  · exact ⟨E.adv s, y, by simp only [lineLoop, h, if_false, Bool.false_eq_true], Or.inr rfl⟩
 
-private theorem lineLoop_maj (step : σ → Bool × σ) (f : Bool) (xi yi : Int) (n : Nat) (s : σ) (x y : Int) :
-    (lineLoop step f xi yi n s x y).map (maj f) = (List.range n).map (fun (k : Nat) => x + (k : Int) * xi) := by
+private theorem lineLoop_length (E : Err σ) (f : Bool) (xi yi ey : Int) (n : Nat) (s : σ) (x y : Int) :
+    (lineLoop E f xi yi ey n s x y).length = n := by
   induction n generalizing s x y with
   | zero => rfl
   | succ n ih =>
-    rw [List.range_succ_eq_map]
-    simp only [lineLoop, List.map_cons, List.map_map, ih, maj_emit]
+    obtain ⟨s', y', h, _⟩ := lineLoop_succ E f xi yi ey n s x y
+    rw [h, List.length_cons, ih]
+
+private theorem lineLoop_maj (E : Err σ) (f : Bool) (xi yi ey : Int) (n : Nat) (s : σ) (x y : Int) :
+    (lineLoop E f xi yi ey n s x y).map (maj f) = (List.range n).map (fun (k : Nat) => x + (k : Int) * xi) := by
+  induction n generalizing s x y with
+  | zero => rfl
+  | succ n ih =>
+    obtain ⟨s', y', h, _⟩ := lineLoop_succ E f xi yi ey n s x y
+    rw [h, List.range_succ_eq_map]
+    simp only [List.map_cons, List.map_map, ih, maj_emit]
     congr 1
     · simp
     · apply List.map_congr_left
@@ -57,14 +70,13 @@ private theorem lineLoop_maj (step : σ → Bool × σ) (f : Bool) (xi yi : Int)
       simp only [Function.comp, Nat.succ_eq_add_one, Int.natCast_add, Int.natCast_one]
       rw [Int.add_mul]; omega
 
-
 /-- `point_count()` is max(|dx|,|dy|)+1 (over the generated definition) -/
 theorem C20_line_point_count (s e : Pt) :
     pointCount s e = max (iabs (e.1 - s.1)) (iabs (e.2 - s.2)) + 1 := by
-  unfold pointCount line_point_count iabs; dsimp only; omega
+  unfold pointCount line_point_count iabs; (try dsimp only); omega
 
 /-- exactly `point_count()` points, for every decision stream -/
-theorem C20_line_count (mk : Int → Int → σ → Bool × σ) (init : σ) (s e : Pt) :
+theorem C20_line_count (mk : Int → Int → Err σ) (init : σ) (s e : Pt) :
     specCount s e (lineWith mk init s e) = true := by
   unfold specCount
   rw [decide_eq_true_eq, C20_line_point_count]
@@ -77,16 +89,14 @@ theorem C20_line_count (mk : Int → Int → σ → Bool × σ) (init : σ) (s e
     · simp only [hf, decide_true, maj, if_true]; unfold iabs at *; omega
     · simp only [hf, decide_false, maj]; unfold iabs at *; simp only [Bool.false_eq_true, if_false]; omega
 
-
-private theorem emit_maj_mnr (f : Bool) (p : Pt) : emit f (maj f p) (mnr f p) = p := by cases f <;> rfl
-
 /-- number of loop iterations -/
 private def nIter (s e : Pt) : Nat := (iabs (maj (needsFlip s e) e - maj (needsFlip s e) s)).toNat
 
-private theorem lineWith_ne (mk : Int → Int → σ → Bool × σ) (init : σ) (s e : Pt) (h : s ≠ e) :
+private theorem lineWith_ne (mk : Int → Int → Err σ) (init : σ) (s e : Pt) (h : s ≠ e) :
     lineWith mk init s e =
       lineLoop (mk (iabs (mnr (needsFlip s e) e - mnr (needsFlip s e) s) + 1) (iabs (maj (needsFlip s e) e - maj (needsFlip s e) s) + 1))
-        (needsFlip s e) (majDir s e) (mnrDir s e) (nIter s e) init (maj (needsFlip s e) s) (mnr (needsFlip s e) s) ++ [e] := by
+        (needsFlip s e) (majDir s e) (mnrDir s e) (mnr (needsFlip s e) e) (nIter s e) init
+        (maj (needsFlip s e) s) (mnr (needsFlip s e) s) ++ [e] := by
   unfold lineWith majDir mnrDir nIter
   simp only [h, if_false]
 
@@ -108,7 +118,7 @@ private theorem nIter_facts (s e : Pt) :
     omega
 
 /-- the first point is the start point and the last one the end point, for every decision stream -/
-theorem C20_line_endpoints (mk : Int → Int → σ → Bool × σ) (init : σ) (s e : Pt) :
+theorem C20_line_endpoints (mk : Int → Int → Err σ) (init : σ) (s e : Pt) :
     specEnds s e (lineWith mk init s e) = true := by
   unfold specEnds
   by_cases hse : s = e
@@ -118,11 +128,14 @@ theorem C20_line_endpoints (mk : Int → Int → σ → Bool × σ) (init : σ) 
     rw [hl, Bool.and_eq_true]
     constructor
     · obtain ⟨m, hm⟩ : ∃ m, nIter s e = m + 1 := ⟨nIter s e - 1, by omega⟩
-      simp [hm, lineLoop, emit_maj_mnr]
+      obtain ⟨s', y', h, _⟩ := lineLoop_succ (mk (iabs (mnr (needsFlip s e) e - mnr (needsFlip s e) s) + 1)
+        (iabs (maj (needsFlip s e) e - maj (needsFlip s e) s) + 1)) (needsFlip s e) (majDir s e) (mnrDir s e)
+        (mnr (needsFlip s e) e) m init (maj (needsFlip s e) s) (mnr (needsFlip s e) s)
+      rw [hm, h]; simp [emit_maj_mnr]
     · simp [List.getLast?_append]
 
 /-- the k-th point's major coordinate is start + k·direction: one step along the major axis per point -/
-theorem C20_line_major_monotone (mk : Int → Int → σ → Bool × σ) (init : σ) (s e : Pt) :
+theorem C20_line_major_monotone (mk : Int → Int → Err σ) (init : σ) (s e : Pt) :
     specMajor s e (lineWith mk init s e) = true := by
   unfold specMajor
   rw [beq_iff_eq]
@@ -137,150 +150,194 @@ theorem C20_line_major_monotone (mk : Int → Int → σ → Bool × σ) (init :
     rw [hn]; unfold majDir iabs
     split <;> omega
 
-private theorem conn8_emit (f : Bool) (x y xi yi : Int) (b : Bool) (hx : iabs xi ≤ 1) (hy : iabs yi ≤ 1) :
-    conn8 (emit f x y) (emit f (x + xi) (if b then y + yi else y)) = true := by
+private theorem conn8_emit (f : Bool) (x y xi yi y' : Int) (hx : iabs xi ≤ 1) (hy : iabs yi ≤ 1) (hy' : y' = y + yi ∨ y' = y) :
+    conn8 (emit f x y) (emit f (x + xi) y') = true := by
   unfold conn8 iabs at *
-  cases f <;> cases b <;>
+  rcases hy' with h | h <;> subst h <;> cases f <;>
     simp only [emit, Bool.false_eq_true, if_false, if_true, Bool.and_eq_true, decide_eq_true_eq] <;> omega
 
-private theorem lineLoop_conn (step : σ → Bool × σ) (f : Bool) (xi yi : Int) (hx : iabs xi ≤ 1) (hy : iabs yi ≤ 1)
-    (n : Nat) (s : σ) (x y : Int) : allPairs conn8 (lineLoop step f xi yi n s x y) = true := by
+private theorem lineLoop_conn (E : Err σ) (f : Bool) (xi yi ey : Int) (hx : iabs xi ≤ 1) (hy : iabs yi ≤ 1)
+    (n : Nat) (s : σ) (x y : Int) : allPairs conn8 (lineLoop E f xi yi ey n s x y) = true := by
   induction n generalizing s x y with
   | zero => rfl
   | succ n ih =>
+    obtain ⟨s', y', h, hy'⟩ := lineLoop_succ E f xi yi ey n s x y
+    rw [h]
     cases n with
     | zero => rfl
     | succ m =>
-      have h := ih (step s).2 (x + xi) (if (step s).1 then y + yi else y)
-      simp only [lineLoop] at h ⊢
+      obtain ⟨s'', y'', h2, _⟩ := lineLoop_succ E f xi yi ey m s' (x + xi) y'
+      have := ih s' (x + xi) y'
+      rw [h2] at this ⊢
       simp only [allPairs, Bool.and_eq_true]
-      exact ⟨conn8_emit f x y xi yi _ hx hy, h⟩
+      exact ⟨conn8_emit f x y xi yi y' hx hy (by rcases hy' with h | h; exact Or.inl h.1; exact Or.inr h), this⟩
 
 private theorem dirs (s e : Pt) : (majDir s e = 1 ∨ majDir s e = -1) ∧ (mnrDir s e = 1 ∨ mnrDir s e = -1) := by
   unfold majDir mnrDir; constructor <;> split <;> simp
 
 /-- consecutive points are 8-connected, all steps except possibly the last (onto the end point),
     for every decision stream -/
-theorem C20_line_connected_inner (mk : Int → Int → σ → Bool × σ) (init : σ) (s e : Pt) :
+theorem C20_line_connected_inner (mk : Int → Int → Err σ) (init : σ) (s e : Pt) :
     specConn (lineWith mk init s e).dropLast = true := by
   unfold specConn
   by_cases hse : s = e
   · subst hse; simp [lineWith, allPairs]
-  · have hl := lineWith_ne mk init s e hse
-    rw [hl, List.dropLast_concat]
+  · rw [lineWith_ne mk init s e hse, List.dropLast_concat]
     have hd := dirs s e
     apply lineLoop_conn <;> unfold iabs <;> omega
 
-
-private theorem lineLoop_partial (step : σ → Bool × σ) (f : Bool) (xi yi x0 y0 : Int) (hyi : yi = 1 ∨ yi = -1)
-    (n : Nat) (s : σ) (x y : Int) (i : Nat)
-    (hx : x = x0 + (i : Int) * xi) (hy : 0 ≤ (y - y0) * yi ∧ (y - y0) * yi ≤ (i : Int)) :
-    ∀ pk ∈ (lineLoop step f xi yi n s x y).zipIdx i,
-      maj f pk.1 = x0 + (pk.2 : Int) * xi ∧ pk.2 < i + n ∧
-      0 ≤ (mnr f pk.1 - y0) * yi ∧ (mnr f pk.1 - y0) * yi ≤ (pk.2 : Int) := by
+/-- every loop point: major coordinate x0 + j·xi with i ≤ j < i+n; the minor coordinate has moved c steps towards
+    `ey` with 0 ≤ c ≤ j and never past `ey` (the `y != end.y` guard) -/
+private theorem lineLoop_inv (E : Err σ) (f : Bool) (xi yi x0 y0 ey : Int) (hyi : yi = 1 ∨ yi = -1)
+    (n : Nat) (s : σ) (x y : Int) (i : Int)
+    (hx : x = x0 + xi * i) (hy : 0 ≤ (y - y0) * yi ∧ (y - y0) * yi ≤ i) (he : 0 ≤ (ey - y) * yi) :
+    ∀ p ∈ lineLoop E f xi yi ey n s x y, ∃ j : Int,
+      maj f p = x0 + xi * j ∧ i ≤ j ∧ j < i + n ∧
+      0 ≤ (mnr f p - y0) * yi ∧ (mnr f p - y0) * yi ≤ j ∧ 0 ≤ (ey - mnr f p) * yi := by
   induction n generalizing s x y i with
-  | zero => intro pk h; simp [lineLoop] at h
+  | zero => intro p h; simp [lineLoop] at h
   | succ n ih =>
-    intro pk h
-    simp only [lineLoop, List.zipIdx_cons, List.mem_cons] at h
+    intro p h
+    obtain ⟨s', y', hs, hy'⟩ := lineLoop_succ E f xi yi ey n s x y
+    rw [hs] at h
+    simp only [List.mem_cons] at h
     rcases h with h | h
-    · subst h; simp only [maj_emit, mnr_emit]; exact ⟨hx, by omega, hy.1, hy.2⟩
-    · have := ih (step s).2 (x + xi) (if (step s).1 then y + yi else y) (i + 1)
-        (by rw [hx, Int.natCast_add, Int.add_mul]; omega)
-        (by rcases hyi with h1 | h1 <;> subst h1 <;> split <;> omega) pk h
-      refine ⟨this.1, by omega, this.2.2⟩
+    · subst h; simp only [maj_emit, mnr_emit]; exact ⟨i, hx, le_refl _, by omega, hy.1, hy.2, he⟩
+    · obtain ⟨j, h1, h2, h3, h4⟩ := ih s' (x + xi) y' (i + 1) (by rw [hx]; ring)
+        (by rcases hy' with ⟨h2, _⟩ | h2 <;> subst h2 <;> rcases hyi with h1 | h1 <;> subst h1 <;> omega)
+        (by rcases hy' with ⟨h2, h3⟩ | h2 <;> subst h2 <;> rcases hyi with h1 | h1 <;> subst h1 <;> omega) p h
+      exact ⟨j, h1, by omega, by omega, h4⟩
 
-/-- The provable remainder of the bounding-box clause, for every decision stream: every point before the
-    last has its major coordinate between the end points', and its minor coordinate has moved between
-    0 and k steps (k = index of the point) towards the end point -- never backwards.  What can NOT be
-    proven (and is false, see `C20_line_bbox_witness`) is that it moves at most |Δminor| steps. -/
-theorem C20_line_partial (mk : Int → Int → σ → Bool × σ) (init : σ) (s e : Pt) :
-    specLinePartial s e (lineWith mk init s e) = true := by
-  unfold specLinePartial
-  by_cases hse : s = e
-  · subst hse; simp [lineWith]
-  · have hl := lineWith_ne mk init s e hse
-    rw [hl, List.dropLast_concat, List.all_eq_true]
-    intro pk hpk
-    have hd := dirs s e
-    have hn := (nIter_facts s e).1
-    have h := lineLoop_partial _ (needsFlip s e) (majDir s e) (mnrDir s e) (maj (needsFlip s e) s) (mnr (needsFlip s e) s)
-      hd.2 (nIter s e) init _ _ 0 (by simp) (by simp) pk hpk
-    obtain ⟨h1, h2, h3, h4⟩ := h
+/-- loop points in terms of the end points (s ≠ e) -/
+private theorem line_points (mk : Int → Int → Err σ) (init : σ) (s e : Pt) (hse : s ≠ e) :
+    ∀ p ∈ (lineWith mk init s e).dropLast, ∃ j : Int,
+      maj (needsFlip s e) p = maj (needsFlip s e) s + majDir s e * j ∧ 0 ≤ j ∧ j < (nIter s e : Int) ∧
+      0 ≤ (mnr (needsFlip s e) p - mnr (needsFlip s e) s) * mnrDir s e ∧
+      (mnr (needsFlip s e) p - mnr (needsFlip s e) s) * mnrDir s e ≤ j ∧
+      0 ≤ (mnr (needsFlip s e) e - mnr (needsFlip s e) p) * mnrDir s e := by
+  rw [lineWith_ne mk init s e hse, List.dropLast_concat]
+  intro p hp
+  have hd := dirs s e
+  obtain ⟨j, h1, h2, h3, h4⟩ := lineLoop_inv _ (needsFlip s e) (majDir s e) (mnrDir s e) (maj (needsFlip s e) s)
+    (mnr (needsFlip s e) s) (mnr (needsFlip s e) e) hd.2 (nIter s e) init _ _ 0 (by ring) (by simp)
+    (by unfold mnrDir; split <;> omega) p hp
+  exact ⟨j, h1, h2, by omega, h4⟩
+
+/-- Every point lies within the end points' bounding box -- for EVERY decision stream, hence for the double one.
+    (Holds since fix 51ba32c added the `y != end.y` guard; before it (0,0)→(7,1) emitted (6,2).) -/
+theorem C20_line_bbox (mk : Int → Int → Err σ) (init : σ) (s e : Pt) :
+    specBBox s e (lineWith mk init s e) = true := by
+  unfold specBBox
+  rw [List.all_eq_true]
+  have hin : ∀ q : Pt, q = s ∨ q = e → inBox (bboxLo s e) (bboxHi s e) q = true := by
+    intro q hq
+    unfold inBox bboxLo bboxHi
     simp only [Bool.and_eq_true, decide_eq_true_eq]
-    refine ⟨⟨⟨?_, ?_⟩, h3⟩, h4⟩
-    · rw [h1]; unfold majDir iabs at *; split <;> omega
-    · rw [h1]; unfold majDir iabs at *; split <;> omega
+    rcases hq with h | h <;> subst h <;> omega
+  by_cases hse : s = e
+  · subst hse; intro p hp; simp only [lineWith, if_true, List.mem_singleton] at hp; exact hin p (Or.inl hp)
+  · intro p hp
+    have hsplit : lineWith mk init s e = (lineWith mk init s e).dropLast ++ [e] := by
+      rw [lineWith_ne mk init s e hse, List.dropLast_concat]
+    rw [hsplit, List.mem_append, List.mem_singleton] at hp
+    rcases hp with hp | hp
+    · obtain ⟨j, h1, h2, h3, h4, h5, h6⟩ := line_points mk init s e hse p hp
+      have hd := dirs s e
+      have hn := (nIter_facts s e).1
+      have he1 : maj (needsFlip s e) e = maj (needsFlip s e) s + (nIter s e : Int) * majDir s e := by
+        rw [hn]; unfold majDir iabs; split <;> omega
+      unfold inBox bboxLo bboxHi
+      simp only [Bool.and_eq_true, decide_eq_true_eq]
+      rcases hd.1 with hx | hx <;> rcases hd.2 with hy | hy <;> rw [hx] at h1 he1 <;> rw [hy] at h4 h5 h6 <;>
+        (cases hf : needsFlip s e <;> simp only [hf, maj, mnr, Bool.false_eq_true, if_false, if_true] at h1 h4 h5 h6 he1 ⊢ <;> omega)
+    · exact hin p (Or.inr hp)
 
-/-- OPEN (not proven, and FALSE for the current code -- see the witness below):
-      theorem C20_line_bbox (s e : Pt) : specBBox s e (line s e) = true
-      theorem C20_line_near (s e : Pt) : specNear s e (line s e) = true
-    The slope used by the code is (|dy|+1)/(|dx|+1), so the minor coordinate reaches |dy|+1 steps when
-    |dx|+1 ≥ 4(|dy|+1).  Witness: in exact arithmetic (which the double code follows exactly here,
-    0.25 and its multiples being exact) (0,0)→(7,1) emits (6,2).  The same input is replayed on the real
-    code by the check (`line 0 0 7 1`, `linex 0 0 7 1`, `aline g8 0 0 7 1`). -/
-theorem C20_line_bbox_witness :
-    lineExact (0, 0) (7, 1) = [(0, 0), (1, 0), (2, 1), (3, 1), (4, 1), (5, 1), (6, 2), (7, 1)] ∧
-    specBBox (0, 0) (7, 1) (lineExact (0, 0) (7, 1)) = false ∧
-    specNear (0, 0) (7, 1) (lineExact (0, 0) (7, 1)) = false := by decide
+/-- the minor coordinate of the k-th point has moved between 0 and k steps towards the end point (never backwards) -/
+theorem C20_line_partial (mk : Int → Int → Err σ) (init : σ) (s e : Pt) :
+    ∀ p ∈ (lineWith mk init s e).dropLast, ∃ j : Int,
+      maj (needsFlip s e) p = maj (needsFlip s e) s + majDir s e * j ∧ 0 ≤ j ∧
+      0 ≤ (mnr (needsFlip s e) p - mnr (needsFlip s e) s) * mnrDir s e ∧
+      (mnr (needsFlip s e) p - mnr (needsFlip s e) s) * mnrDir s e ≤ j := by
+  by_cases hse : s = e
+  · subst hse; intro p hp; simp [lineWith] at hp
+  · intro p hp
+    obtain ⟨j, h1, h2, _, h4, h5, _⟩ := line_points mk init s e hse p hp
+    exact ⟨j, h1, h2, h4, h5⟩
 
 set_option maxRecDepth 8192 in
-/-- more than one pixel (minor axis) from the ideal segment although inside the bounding box:
-    (0,0)→(31,8) emits (27,8) where the ideal ordinate is 6.97 (exact arithmetic = the double code here,
-    the slope 9/32 and its multiples being exact) -/
+/-- OPEN (not proven, and FALSE for the current code):
+      theorem C20_line_near (s e : Pt) : specNear s e (line s e) = true
+    The slope used by the code is (|dy|+1)/(|dx|+1), so the minor coordinate runs ahead of the ideal segment.
+    Witness (exact arithmetic = the double code here, the slope 9/32 and its multiples being exact): (0,0)→(31,8)
+    emits (27,8) where the ideal ordinate is 6.97 -- inside the bounding box, 1.03 px from the segment.
+    Replayed on the real code by the check (`line 0 0 31 8`, `linex 0 0 31 8`). -/
 theorem C20_line_near_witness :
     (27, 8) ∈ lineExact (0, 0) (31, 8) ∧
     specBBox (0, 0) (31, 8) (lineExact (0, 0) (31, 8)) = true ∧
     specNear (0, 0) (31, 8) (lineExact (0, 0) (31, 8)) = false := by decide
 
-private theorem maj_emit' (f : Bool) (x y : Int) : maj f (emit f x y) = x := by cases f <;> rfl
-private theorem mnr_emit' (f : Bool) (x y : Int) : mnr f (emit f x y) = y := by cases f <;> rfl
+/-- the guard is what keeps (0,0)→(7,1) in its box: the line is now (…,(5,1),(6,1),(7,1)) -/
+theorem C20_line_guard_example :
+    lineExact (0, 0) (7, 1) = [(0, 0), (1, 0), (2, 1), (3, 1), (4, 1), (5, 1), (6, 1), (7, 1)] := by decide
 
-/-- exact error term, scaled by 2W: after j iterations with c increments it equals 2jH − 2Wc and lies in [−W, W) -/
-private theorem exactLoop_inv (H W : Int) (hH : 2 ≤ H) (hW : H ≤ W) (f : Bool) (xi yi x0 y0 : Int)
+/-! ### the error term in exact arithmetic -/
+
+/-- exact error term, scaled by 2W: while the guard has not engaged (c < H−1 steps taken) it equals 2jH − 2Wc and
+    lies in [−W, W) after j iterations; the minor offset never exceeds H−1 -/
+private theorem exactLoop_inv (H W : Int) (hH : 2 ≤ H) (hW : H ≤ W) (f : Bool) (xi yi x0 y0 ey : Int)
+    (hyi : yi = 1 ∨ yi = -1) (hey : ey = y0 + yi * (H - 1))
     (n : Nat) (E x y j c P Q : Int) (hP : P = j * H) (hQ : Q = W * c)
-    (hx : x = x0 + xi * j) (hy : y = y0 + yi * c) (hj : 0 ≤ j) (hE : E = 2 * P - 2 * Q) (hb : -W ≤ E ∧ E < W) :
-    ∀ p ∈ lineLoop (exactStep H W) f xi yi n E x y,
-      ∃ j' c' : Int, maj f p = x0 + xi * j' ∧ mnr f p = y0 + yi * c' ∧ j ≤ j' ∧ j' < j + n ∧
-        -W ≤ 2 * (j' * H) - 2 * (W * c') ∧ 2 * (j' * H) - 2 * (W * c') < W := by
+    (hx : x = x0 + xi * j) (hy : y = y0 + yi * c) (hj : 0 ≤ j) (hc : 0 ≤ c ∧ c ≤ H - 1)
+    (hE : c < H - 1 → E = 2 * P - 2 * Q ∧ -W ≤ E ∧ E < W) :
+    ∀ p ∈ lineLoop (exactErr H W) f xi yi ey n E x y,
+      ∃ j' c' : Int, maj f p = x0 + xi * j' ∧ mnr f p = y0 + yi * c' ∧ j ≤ j' ∧ j' < j + n ∧ 0 ≤ c' ∧ c' ≤ H - 1 ∧
+        (c' < H - 1 → -W ≤ 2 * (j' * H) - 2 * (W * c') ∧ 2 * (j' * H) - 2 * (W * c') < W) := by
   induction n generalizing E x y j c P Q with
   | zero => intro p hp; simp [lineLoop] at hp
   | succ n ih =>
     intro p hp
-    simp only [lineLoop, List.mem_cons] at hp
+    have hne : ¬ (H = 1) := by omega
+    have hadv : ∀ t, (exactErr H W).adv t = t + 2 * H := by intro t; simp only [exactErr, hne, if_false]
+    have hdec : ∀ t, (exactErr H W).dec t = decide (t ≥ W) := by intro t; simp only [exactErr]
+    have hsub : ∀ t, (exactErr H W).sub t = t - 2 * W := by intro t; simp only [exactErr]
+    simp only [lineLoop, List.mem_cons, hadv, hdec, hsub] at hp
     rcases hp with hp | hp
     · subst hp
-      refine ⟨j, c, by rw [maj_emit', hx], by rw [mnr_emit', hy], le_refl _, by omega, ?_, ?_⟩ <;> rw [← hP, ← hQ] <;> omega
-    · have hne : ¬ (H = 1) := by omega
-      by_cases hd : E + 2 * H ≥ W
-      · have e1 : (exactStep H W E).1 = true := by simp [exactStep, hne, hd]
-        have e2 : (exactStep H W E).2 = E + 2 * H - 2 * W := by simp [exactStep, hne, hd]
-        rw [e1, e2] at hp
-        simp only [if_true] at hp
+      refine ⟨j, c, by rw [maj_emit, hx], by rw [mnr_emit, hy], le_refl _, by omega, hc.1, hc.2, ?_⟩
+      intro hlt; obtain ⟨e1, e2, e3⟩ := hE hlt; rw [← hP, ← hQ]; omega
+    · have hyne : y ≠ ey ↔ c ≠ H - 1 := by
+        rw [hy, hey]; rcases hyi with h | h <;> subst h <;> omega
+      by_cases hd : (decide (E + 2 * H ≥ W) && decide (y ≠ ey)) = true
+      · simp only [hd, if_true] at hp
+        simp only [Bool.and_eq_true, decide_eq_true_eq] at hd
+        have hclt : c < H - 1 := by have := hyne.mp hd.2; omega
+        obtain ⟨e1, e2, e3⟩ := hE hclt
         obtain ⟨j', c', h1, h2, h3, h4, h5⟩ := ih (E + 2 * H - 2 * W) (x + xi) (y + yi) (j + 1) (c + 1) (P + H) (Q + W)
-          (by rw [hP]; ring) (by rw [hQ]; ring) (by rw [hx]; ring) (by rw [hy]; ring) (by omega) (by omega) (by omega) p hp
+          (by rw [hP]; ring) (by rw [hQ]; ring) (by rw [hx]; ring) (by rw [hy]; ring) (by omega) (by omega)
+          (fun _ => by omega) p hp
         exact ⟨j', c', h1, h2, by omega, by omega, h5⟩
-      · have e1 : (exactStep H W E).1 = false := by simp [exactStep, hne, hd]
-        have e2 : (exactStep H W E).2 = E + 2 * H := by simp [exactStep, hne, hd]
-        rw [e1, e2] at hp
-        simp only [Bool.false_eq_true, if_false] at hp
+      · simp only [hd, Bool.false_eq_true, if_false] at hp
+        simp only [Bool.and_eq_true, decide_eq_true_eq, not_and] at hd
         obtain ⟨j', c', h1, h2, h3, h4, h5⟩ := ih (E + 2 * H) (x + xi) y (j + 1) c (P + H) Q
-          (by rw [hP]; ring) hQ (by rw [hx]; ring) hy (by omega) (by omega) (by omega) p hp
+          (by rw [hP]; ring) hQ (by rw [hx]; ring) hy (by omega) hc
+          (fun hlt => by
+            obtain ⟨e1, e2, e3⟩ := hE hlt
+            have : ¬ (E + 2 * H ≥ W) := fun hge => (hd hge) (hyne.mpr (by omega))
+            omega) p hp
         exact ⟨j', c', h1, h2, by omega, by omega, h5⟩
 
-
-private theorem exactLoop_flat (W : Int) (f : Bool) (xi yi : Int) (n : Nat) (E x y : Int) (hE : E < W) :
-    ∀ p ∈ lineLoop (exactStep 1 W) f xi yi n E x y, mnr f p = y := by
+private theorem exactLoop_flat (W : Int) (f : Bool) (xi yi ey : Int) (n : Nat) (E x y : Int) (hE : E < W) :
+    ∀ p ∈ lineLoop (exactErr 1 W) f xi yi ey n E x y, mnr f p = y := by
   induction n generalizing x with
   | zero => intro p hp; simp [lineLoop] at hp
   | succ n ih =>
     intro p hp
-    have hn : ¬ (E + 0 ≥ W) := by omega
-    have e1 : (exactStep 1 W E).1 = false := by simp only [exactStep, if_true, hn, if_false]
-    have e2 : (exactStep 1 W E).2 = E := by simp only [exactStep, if_true, hn, if_false]; omega
-    simp only [lineLoop, List.mem_cons, e1, e2, Bool.false_eq_true, if_false] at hp
+    have hadv : ∀ t, (exactErr 1 W).adv t = t := by intro t; simp only [exactErr, if_true]; omega
+    have hdec : ∀ t, (exactErr 1 W).dec t = decide (t ≥ W) := by intro t; simp only [exactErr]
+    have hn : ¬ (E ≥ W) := by omega
+    simp only [lineLoop, List.mem_cons, hadv, hdec, hn, decide_false, Bool.false_and, Bool.false_eq_true, if_false] at hp
     rcases hp with hp | hp
-    · subst hp; exact mnr_emit' f x y
+    · subst hp; exact mnr_emit f x y
     · exact ih (x + xi) p hp
 
 private theorem allPairs_concat (P : Pt → Pt → Bool) (l : List Pt) (e : Pt) (hl : allPairs P l = true)
@@ -295,14 +352,13 @@ private theorem allPairs_concat (P : Pt → Pt → Bool) (l : List Pt) (e : Pt) 
       refine ⟨hl.1, ih hl.2 ?_⟩
       intro z hz; apply hlast; simpa using hz
 
-
 /-- In exact arithmetic the last step (onto the end point) is 8-connected too: the whole line is 8-connected.
     (For the double error term of the real code this step is decided by the Spec on the real output.) -/
 theorem C20_line_exact_connected (s e : Pt) : specConn (lineExact s e) = true := by
   unfold specConn lineExact
   by_cases hse : s = e
   · subst hse; simp [lineWith, allPairs]
-  · rw [lineWith_ne exactStep (0 : Int) s e hse]
+  · rw [lineWith_ne exactErr (0 : Int) s e hse]
     have hd := dirs s e
     obtain ⟨hn1, hn2, hn3⟩ := nIter_facts s e
     have hn3 := hn3 hse
@@ -310,177 +366,52 @@ theorem C20_line_exact_connected (s e : Pt) : specConn (lineExact s e) = true :=
     · apply lineLoop_conn <;> unfold iabs <;> omega
     · intro z hz
       have hzmem := List.mem_of_getLast? hz
-      have hm := lineLoop_maj (exactStep (iabs (mnr (needsFlip s e) e - mnr (needsFlip s e) s) + 1) (iabs (maj (needsFlip s e) e - maj (needsFlip s e) s) + 1))
-        (needsFlip s e) (majDir s e) (mnrDir s e) (nIter s e) 0 (maj (needsFlip s e) s) (mnr (needsFlip s e) s)
+      have hm := lineLoop_maj (exactErr (iabs (mnr (needsFlip s e) e - mnr (needsFlip s e) s) + 1) (iabs (maj (needsFlip s e) e - maj (needsFlip s e) s) + 1))
+        (needsFlip s e) (majDir s e) (mnrDir s e) (mnr (needsFlip s e) e) (nIter s e) 0 (maj (needsFlip s e) s) (mnr (needsFlip s e) s)
       have hzm : maj (needsFlip s e) z = maj (needsFlip s e) s + (((nIter s e - 1 : Nat) : Int)) * majDir s e := by
         have h2 := congrArg List.getLast? hm
         rw [List.getLast?_map, hz, List.getLast?_map, List.getLast?_range] at h2
         have : ¬ (nIter s e = 0) := by omega
         simp only [this, if_false, Option.map_some, Option.some.injEq] at h2
         exact h2
+      have hcast : (((nIter s e - 1 : Nat)) : Int) = (nIter s e : Int) - 1 := by omega
+      rw [hcast] at hzm
+      have he1 : maj (needsFlip s e) e = maj (needsFlip s e) s + (nIter s e : Int) * majDir s e := by
+        rw [hn1]; unfold majDir iabs; split <;> omega
+      have he2 : mnr (needsFlip s e) e = mnr (needsFlip s e) s + mnrDir s e * iabs (mnr (needsFlip s e) e - mnr (needsFlip s e) s) := by
+        unfold mnrDir iabs; split <;> omega
+      have hH0 : 0 ≤ iabs (mnr (needsFlip s e) e - mnr (needsFlip s e) s) := by unfold iabs; omega
       by_cases hH : iabs (mnr (needsFlip s e) e - mnr (needsFlip s e) s) = 0
-      · -- horizontal in the major frame: the minor coordinate never moves
-        rw [hH] at hzmem
-        have hflat := exactLoop_flat _ (needsFlip s e) (majDir s e) (mnrDir s e) (nIter s e) 0 _ (mnr (needsFlip s e) s)
+      · rw [hH] at hzmem
+        have hflat := exactLoop_flat _ (needsFlip s e) (majDir s e) (mnrDir s e) _ (nIter s e) 0 _ (mnr (needsFlip s e) s)
           (by unfold iabs at *; omega) z hzmem
-        have he1 : maj (needsFlip s e) e = maj (needsFlip s e) s + (nIter s e : Int) * majDir s e := by
-          rw [hn1]; unfold majDir iabs; split <;> omega
-        have he2 : mnr (needsFlip s e) e = mnr (needsFlip s e) s := by unfold iabs at hH; omega
-        have hcast : (((nIter s e - 1 : Nat)) : Int) = (nIter s e : Int) - 1 := by omega
-        rw [hcast] at hzm
+        rw [hH] at he2
         unfold conn8 iabs
         rcases hd.1 with h1 | h1 <;> rw [h1] at hzm he1 <;>
           (cases hf : needsFlip s e <;> simp only [hf, maj, mnr, Bool.false_eq_true, if_false, if_true] at hzm he1 he2 hflat <;>
             simp only [Bool.and_eq_true, decide_eq_true_eq] <;> omega)
-      · obtain ⟨j', c', h1, h2, h3, h4, h5, h6⟩ := exactLoop_inv (iabs (mnr (needsFlip s e) e - mnr (needsFlip s e) s) + 1)
+      · obtain ⟨j', c', h1, h2, h3, h4, h5, h6, h7⟩ := exactLoop_inv (iabs (mnr (needsFlip s e) e - mnr (needsFlip s e) s) + 1)
           (iabs (maj (needsFlip s e) e - maj (needsFlip s e) s) + 1) (by unfold iabs at *; omega) (by omega)
-          (needsFlip s e) (majDir s e) (mnrDir s e) (maj (needsFlip s e) s) (mnr (needsFlip s e) s) (nIter s e) 0 _ _ 0 0 0 0
-          (by ring) (by ring) (by ring) (by ring) (le_refl _) (by ring) (by unfold iabs; omega) z hzmem
-        have hcast : (((nIter s e - 1 : Nat)) : Int) = (nIter s e : Int) - 1 := by omega
-        rw [hcast] at hzm
-        -- j' is the last index
+          (needsFlip s e) (majDir s e) (mnrDir s e) (maj (needsFlip s e) s) (mnr (needsFlip s e) s) (mnr (needsFlip s e) e)
+          hd.2 (by simp only [add_sub_cancel_right]; exact he2) (nIter s e) 0 _ _ 0 0 0 0
+          (by ring) (by ring) (by ring) (by ring) (le_refl _) (by omega) (fun _ => by omega) z hzmem
         have hj : j' = (nIter s e : Int) - 1 := by
           rcases hd.1 with hx | hx <;> rw [hx] at hzm h1 <;> omega
         subst hj
-        have he1 : maj (needsFlip s e) e = maj (needsFlip s e) s + (nIter s e : Int) * majDir s e := by
-          rw [hn1]; unfold majDir iabs; split <;> omega
-        have he2 : mnr (needsFlip s e) e = mnr (needsFlip s e) s + mnrDir s e * iabs (mnr (needsFlip s e) e - mnr (needsFlip s e) s) := by
-          unfold mnrDir iabs; split <;> omega
-        have hH0 : 0 ≤ iabs (mnr (needsFlip s e) e - mnr (needsFlip s e) s) := by unfold iabs; omega
-        rw [← hn1] at h5 h6
+        rw [← hn1] at h7
         generalize iabs (mnr (needsFlip s e) e - mnr (needsFlip s e) s) = HH at *
         generalize (nIter s e : Int) = NN at *
-        -- c' ∈ {HH-1, HH, HH+1}  (H = HH+1, W = NN+1, j = NN-1)
-        have hc1 : c' ≤ HH + 1 := by
-          by_contra hcon
-          have : (NN + 1) * (HH + 2) ≤ (NN + 1) * c' := mul_le_mul_of_nonneg_left (by omega) (by omega)
-          nlinarith
+        -- c' ∈ {HH-1, HH}  (H = HH+1, W = NN+1, j = NN-1)
         have hc0 : HH - 1 ≤ c' := by
           by_contra hcon
+          have hlt : c' < HH + 1 - 1 := by omega
+          obtain ⟨b1, b2⟩ := h7 hlt
           have : (NN + 1) * c' ≤ (NN + 1) * (HH - 2) := mul_le_mul_of_nonneg_left (by omega) (by omega)
           nlinarith
         unfold conn8 iabs
         rcases hd.1 with hx | hx <;> rcases hd.2 with hy | hy <;> rw [hx] at hzm he1 <;> rw [hy] at h2 he2 <;>
           (cases hf : needsFlip s e <;> simp only [hf, maj, mnr, Bool.false_eq_true, if_false, if_true] at hzm he1 he2 h2 <;>
             simp only [Bool.and_eq_true, decide_eq_true_eq] <;> omega)
-
-private theorem lineLoop_maj_mem {σ : Type} (step : σ → Bool × σ) (f : Bool) (xi yi x0 : Int) (n : Nat) (st : σ) (x y j : Int)
-    (hx : x = x0 + xi * j) :
-    ∀ p ∈ lineLoop step f xi yi n st x y, ∃ j' : Int, maj f p = x0 + xi * j' ∧ j ≤ j' ∧ j' < j + n := by
-  induction n generalizing st x y j with
-  | zero => intro p hp; simp [lineLoop] at hp
-  | succ n ih =>
-    intro p hp
-    simp only [lineLoop, List.mem_cons] at hp
-    rcases hp with hp | hp
-    · subst hp; exact ⟨j, by rw [maj_emit', hx], le_refl _, by omega⟩
-    · obtain ⟨j', h1, h2, h3⟩ := ih _ (x + xi) _ (j + 1) (by rw [hx]; ring) p hp
-      exact ⟨j', h1, by omega, by omega⟩
-
-/-- Exact characterisation of the bounding-box defect (exact arithmetic): the line stays inside the end
-    points' bounding box if and only if the minor extent is 0 or |Δmajor|+1 < 4·(|Δminor|+1).
-    (The double code agrees with exact arithmetic except on ties; the correspondence run counts 3136 of the
-    14641 vectors of [-60,60]² leaving the box on the real code.) -/
-theorem C20_line_exact_bbox_iff (s e : Pt) :
-    specBBox s e (lineExact s e) = true ↔
-      (iabs (mnr (needsFlip s e) e - mnr (needsFlip s e) s) = 0 ∨
-       iabs (maj (needsFlip s e) e - maj (needsFlip s e) s) + 1 < 4 * (iabs (mnr (needsFlip s e) e - mnr (needsFlip s e) s) + 1)) := by
-  unfold specBBox lineExact
-  by_cases hse : s = e
-  · subst hse; simp [lineWith, inBox, bboxLo, bboxHi, iabs]
-  · rw [lineWith_ne exactStep (0 : Int) s e hse]
-    have hd := dirs s e
-    obtain ⟨hn1, hn2, hn3⟩ := nIter_facts s e
-    have hn3 := hn3 hse
-    have he1 : maj (needsFlip s e) e = maj (needsFlip s e) s + (nIter s e : Int) * majDir s e := by
-      rw [hn1]; unfold majDir iabs; split <;> omega
-    have he2 : mnr (needsFlip s e) e = mnr (needsFlip s e) s + mnrDir s e * iabs (mnr (needsFlip s e) e - mnr (needsFlip s e) s) := by
-      unfold mnrDir iabs; split <;> omega
-    have hH0 : 0 ≤ iabs (mnr (needsFlip s e) e - mnr (needsFlip s e) s) := by unfold iabs; omega
-    -- membership in the box in terms of major / minor offsets
-    have hbox : ∀ (p : Pt) (j c : Int), maj (needsFlip s e) p = maj (needsFlip s e) s + majDir s e * j →
-        mnr (needsFlip s e) p = mnr (needsFlip s e) s + mnrDir s e * c → 0 ≤ j → j ≤ (nIter s e : Int) →
-        (inBox (bboxLo s e) (bboxHi s e) p = true ↔ 0 ≤ c ∧ c ≤ iabs (mnr (needsFlip s e) e - mnr (needsFlip s e) s)) := by
-      intro p j c hp1 hp2 hj0 hj1
-      unfold inBox bboxLo bboxHi
-      unfold iabs at he2 ⊢
-      simp only [Bool.and_eq_true, decide_eq_true_eq]
-      rcases hd.1 with hx | hx <;> rcases hd.2 with hy | hy <;> rw [hx] at hp1 he1 <;> rw [hy] at hp2 he2 <;>
-        (cases hf : needsFlip s e <;> simp only [hf, maj, mnr, Bool.false_eq_true, if_false, if_true] at hp1 hp2 he1 he2 ⊢ <;> omega)
-    rw [List.all_eq_true]
-    by_cases hH : iabs (mnr (needsFlip s e) e - mnr (needsFlip s e) s) = 0
-    · simp only [hH, true_or, iff_true]
-      intro p hp
-      simp only [List.mem_append, List.mem_singleton] at hp
-      rcases hp with hp | hp
-      · have hflat := exactLoop_flat _ (needsFlip s e) (majDir s e) (mnrDir s e) (nIter s e) 0 _ (mnr (needsFlip s e) s)
-          (by unfold iabs at *; omega) p hp
-        obtain ⟨k, h1, h2, h3⟩ := lineLoop_maj_mem _ (needsFlip s e) (majDir s e) (mnrDir s e) (maj (needsFlip s e) s) (nIter s e) (0 : Int)
-          (maj (needsFlip s e) s) (mnr (needsFlip s e) s) 0 (by ring) p hp
-        rw [hbox p k 0 h1 (by rw [hflat]; ring) (by omega) (by omega), hH]; omega
-      · rw [hp, hbox e (nIter s e) (iabs (mnr (needsFlip s e) e - mnr (needsFlip s e) s)) (by rw [he1]; ring) he2 (by omega) (le_refl _)]
-        omega
-    · simp only [hH, false_or]
-      have hinv := exactLoop_inv (iabs (mnr (needsFlip s e) e - mnr (needsFlip s e) s) + 1)
-          (iabs (maj (needsFlip s e) e - maj (needsFlip s e) s) + 1) (by unfold iabs at *; omega) (by omega)
-          (needsFlip s e) (majDir s e) (mnrDir s e) (maj (needsFlip s e) s) (mnr (needsFlip s e) s) (nIter s e) 0 _ _ 0 0 0 0
-          (by ring) (by ring) (by ring) (by ring) (le_refl _) (by ring) (by unfold iabs; omega)
-      constructor
-      · -- a box-respecting run forces W < 4H: look at the last loop point
-        intro hall
-        by_contra hcon
-        obtain ⟨m, hm⟩ : ∃ m, nIter s e = m + 1 := ⟨nIter s e - 1, by omega⟩
-        have hne : lineLoop (exactStep (iabs (mnr (needsFlip s e) e - mnr (needsFlip s e) s) + 1) (iabs (maj (needsFlip s e) e - maj (needsFlip s e) s) + 1))
-            (needsFlip s e) (majDir s e) (mnrDir s e) (nIter s e) 0 (maj (needsFlip s e) s) (mnr (needsFlip s e) s) ≠ [] := by
-          rw [hm]; simp [lineLoop]
-        obtain ⟨z, hz⟩ : ∃ z, (lineLoop (exactStep (iabs (mnr (needsFlip s e) e - mnr (needsFlip s e) s) + 1) (iabs (maj (needsFlip s e) e - maj (needsFlip s e) s) + 1))
-            (needsFlip s e) (majDir s e) (mnrDir s e) (nIter s e) 0 (maj (needsFlip s e) s) (mnr (needsFlip s e) s)).getLast? = some z :=
-          ⟨_, List.getLast?_eq_some_getLast hne⟩
-        have hzmem := List.mem_of_getLast? hz
-        have hmj := lineLoop_maj (exactStep (iabs (mnr (needsFlip s e) e - mnr (needsFlip s e) s) + 1) (iabs (maj (needsFlip s e) e - maj (needsFlip s e) s) + 1))
-          (needsFlip s e) (majDir s e) (mnrDir s e) (nIter s e) 0 (maj (needsFlip s e) s) (mnr (needsFlip s e) s)
-        have hzm : maj (needsFlip s e) z = maj (needsFlip s e) s + (((nIter s e - 1 : Nat)) : Int) * majDir s e := by
-          have h2 := congrArg List.getLast? hmj
-          rw [List.getLast?_map, hz, List.getLast?_map, List.getLast?_range] at h2
-          have : ¬ (nIter s e = 0) := by omega
-          simp only [this, if_false, Option.map_some, Option.some.injEq] at h2
-          exact h2
-        obtain ⟨j', c', h1, h2, h3, h4, h5, h6⟩ := hinv z hzmem
-        have hcast : (((nIter s e - 1 : Nat)) : Int) = (nIter s e : Int) - 1 := by omega
-        rw [hcast] at hzm
-        have hj : j' = (nIter s e : Int) - 1 := by
-          rcases hd.1 with hx | hx <;> rw [hx] at hzm h1 <;> omega
-        subst hj
-        have hzbox := hall z (by simp [hzmem])
-        rw [hbox z _ c' h1 h2 (by omega) (by omega)] at hzbox
-        rw [← hn1] at h5 h6 hcon
-        generalize iabs (mnr (needsFlip s e) e - mnr (needsFlip s e) s) = HH at *
-        generalize (nIter s e : Int) = NN at *
-        have : (NN + 1) * c' ≤ (NN + 1) * HH := mul_le_mul_of_nonneg_left hzbox.2 (by omega)
-        nlinarith
-      · intro hW p hp
-        simp only [List.mem_append, List.mem_singleton] at hp
-        rcases hp with hp | hp
-        · obtain ⟨j', c', h1, h2, h3, h4, h5, h6⟩ := hinv p hp
-          rw [hbox p j' c' h1 h2 h3 (by omega)]
-          rw [← hn1] at h5 h6 hW
-          generalize iabs (mnr (needsFlip s e) e - mnr (needsFlip s e) s) = HH at *
-          generalize (nIter s e : Int) = NN at *
-          have hjH : 0 ≤ j' * (HH + 1) := mul_nonneg h3 (by omega)
-          have hjH2 : j' * (HH + 1) ≤ (NN - 1) * (HH + 1) := mul_le_mul_of_nonneg_right (by omega) (by omega)
-          constructor
-          · by_contra hcon
-            have : (NN + 1) * c' ≤ (NN + 1) * (-1) := mul_le_mul_of_nonneg_left (by omega) (by omega)
-            nlinarith
-          · by_contra hcon
-            have : (NN + 1) * (HH + 1) ≤ (NN + 1) * c' := mul_le_mul_of_nonneg_left (by omega) (by omega)
-            nlinarith
-        · rw [hp, hbox e (nIter s e) (iabs (mnr (needsFlip s e) e - mnr (needsFlip s e) s)) (by rw [he1]; ring) he2 (by omega) (le_refl _)]
-          omega
-
-example : iabs (maj (needsFlip (0, 0) (7, 1)) (7, 1) - maj (needsFlip (0, 0) (7, 1)) (0, 0)) + 1
-    = 4 * (iabs (mnr (needsFlip (0, 0) (7, 1)) (7, 1) - mnr (needsFlip (0, 0) (7, 1)) (0, 0)) + 1) := by decide
-
 
 /-! ## circles -/
 
